@@ -2,8 +2,10 @@ SPECIFICATION Spec
 CONSTANTS
   Escape = TRUE
   MaxLen = 3
+  Alias = FALSE
   Alphabet = {"a", "b", "dot", "star", "paren"}
 INVARIANT Isolation
 INVARIANT AddServerTotal
+INVARIANT ListsEqualServer
 PROPERTY RemoveExactlyOwned
 CHECK_DEADLOCK FALSE
